@@ -218,6 +218,7 @@ func (p *Policy) sanitize(r io.Reader, w io.Writer) error {
 		skippingElementsCount    int64
 		skipClosingTag           bool
 		closingTagToSkipStack    []string
+		closingTagKeptInside     []int
 		mostRecentlyStartedToken string
 	)
 
@@ -297,6 +298,7 @@ func (p *Policy) sanitize(r io.Reader, w io.Writer) error {
 					if !voidElement(token.Data) {
 						skipClosingTag = true
 						closingTagToSkipStack = append(closingTagToSkipStack, token.Data)
+						closingTagKeptInside = append(closingTagKeptInside, 0)
 					}
 					if p.addSpaces {
 						if _, err := buff.WriteString(" "); err != nil {
@@ -305,6 +307,12 @@ func (p *Policy) sanitize(r io.Reader, w io.Writer) error {
 					}
 					break
 				}
+			}
+
+			if skipClosingTag && closingTagToSkipStack[len(closingTagToSkipStack)-1] == token.Data {
+				// This element is kept inside a dropped element of the same
+				// name, the next end tag of that name is its own
+				closingTagKeptInside[len(closingTagKeptInside)-1]++
 			}
 
 			if !skipElementContent {
@@ -331,16 +339,23 @@ func (p *Policy) sanitize(r io.Reader, w io.Writer) error {
 			}
 
 			if skipClosingTag && closingTagToSkipStack[len(closingTagToSkipStack)-1] == token.Data {
-				closingTagToSkipStack = closingTagToSkipStack[:len(closingTagToSkipStack)-1]
-				if len(closingTagToSkipStack) == 0 {
-					skipClosingTag = false
-				}
-				if p.addSpaces {
-					if _, err := buff.WriteString(" "); err != nil {
-						return err
+				if closingTagKeptInside[len(closingTagKeptInside)-1] > 0 {
+					// closes a kept element of the same name, handled below
+					// like any other end tag
+					closingTagKeptInside[len(closingTagKeptInside)-1]--
+				} else {
+					closingTagToSkipStack = closingTagToSkipStack[:len(closingTagToSkipStack)-1]
+					closingTagKeptInside = closingTagKeptInside[:len(closingTagKeptInside)-1]
+					if len(closingTagToSkipStack) == 0 {
+						skipClosingTag = false
 					}
+					if p.addSpaces {
+						if _, err := buff.WriteString(" "); err != nil {
+							return err
+						}
+					}
+					break
 				}
-				break
 			}
 			if _, ok := p.elsAndAttrs[token.Data]; !ok {
 				match := false
